@@ -164,6 +164,52 @@ def fault(kind: int, v: str, w: str, long_spelling: bool) -> bool:
     return _raises(S1, [w, opt[0], "-f"], CannotParseArgsException)
 
 
+# ---- everything after the first '--' is positional: the outcome is decided by counting
+TAIL_MENU = ["--", "-f", "", "x", "--zz", "-", "--opt=1"]
+DD_SKELS = {"S1": (1, 2, False), "S2": (0, None, True), "S6": (0, 0, False), "S8": (2, None, True)}       # (required, capacity or None, last is multi-valued)
+
+
+def _dd_case(skel_name, nbefore, t1, t2, ntail, lenient):
+    skel = pfmt.SKELS_ALL[skel_name]
+    required, capacity, multi = DD_SKELS[skel_name]
+    before = ["p%d" % i for i in range(nbefore)]
+    tail = [t1, t2][:ntail]
+    tokens = before + ["--"] + tail
+    pos = before + tail
+    names = [a.name for a in skel.all_args]
+    try:
+        a = DefaultArgsParser().parse(ArgvArgs(["prog"] + tokens), skel.fmt, lenient)
+        got = ("ok", a.arguments(False), a.options(False))
+    except CannotParseArgsException:
+        got = ("cannot-parse",)
+    fits = capacity is None or len(pos) <= capacity
+    if not lenient and (len(pos) < required or not fits):
+        return got == ("cannot-parse",)
+    if got[0] != "ok" or got[2] != {}:
+        return False                          # nothing after (or before) the separator is an option here
+    if not fits:
+        pos = pos[:capacity]                   # lenient: surplus positionals are dropped
+    exp = {}
+    for i, v in enumerate(pos):
+        if multi and i >= len(names) - 1:
+            exp.setdefault(names[-1], []).append(v)
+        else:
+            exp[names[i]] = v
+    return got[1] == exp
+
+
+def dd_tail(nbefore: int, k1: int, k2: int, ntail: int, lenient: bool) -> bool:
+    """
+    pre: 0 <= nbefore <= 2 and 0 <= ntail <= 2 and 0 <= k1 < len(TAIL_MENU) and 0 <= k2 < len(TAIL_MENU)
+    pre: ntail > 0 or k1 == 0
+    pre: ntail > 1 or k2 == 0
+    post: _
+    """
+    from vf.sym import conc_bool, conc_int, untraced
+    return untraced(_dd_case, PART["skel"], conc_int(nbefore, 0, 2), TAIL_MENU[conc_int(k1, 0, len(TAIL_MENU) - 1)], TAIL_MENU[conc_int(k2, 0, len(TAIL_MENU) - 1)],
+                    conc_int(ntail, 0, 2), conc_bool(lenient))
+
+
 def conditions(tier):
     quick = tier == "quick"
     t = 90 if quick else 600
@@ -190,6 +236,9 @@ def conditions(tier):
         for k1 in (range(len(menu)) if (not quick or sk in ("S1", "S2", "S4", "S7", "S11", "S12")) else []):
             conds.append({"name": "menu3[%s,%r]" % (sk, menu[k1]), "fn": menu3, "timeout": t, "part": {"skel": sk, "k1": k1, "n": len(menu), "full": full},
                           "bounds": "format %s, first token %r, second and third token any of the %d menu literals %r" % (sk, menu[k1], len(menu), menu)})
+    for sk in sorted(DD_SKELS):
+        conds.append({"name": "dd_tail[%s]" % sk, "fn": dd_tail, "timeout": t, "part": {"skel": sk},
+                      "bounds": "format %s: 0-2 plain words, '--', then 0-2 tokens from %r (everything after the first '--' is positional): strict accepts exactly when the number of positionals fits, with every one of them assigned in order; lenient never fails" % (sk, TAIL_MENU)})
     conds.append({"name": "tokens_twin", "fn": tokens_twin, "timeout": t, "expect": "refute", "part": {"skel": "S1"}, "bounds": "reachability twin"})
     conds.append({"name": "fault", "fn": fault, "timeout": t, "bounds": "7 single-fault mutations of a valid line, values 1-2 chars over {a,x,1,=}, long/short spelling"})
     return conds
